@@ -221,6 +221,66 @@ theorem c15_open_result (s : Stream) (m : DMsg) (hp : s.state = .pending) (hr : 
     | illegal => simp [handleMessage] at h
   · intro r lo hm; subst hm; exact ⟨_, rfl, rfl⟩
 
+/-- drain, then closed: data already buffered for a stream is handed out by the next read whatever has happened to the
+    stream since (local close, the device's CLSE, id released): `read(0)` gives all of it, `read(n)` its first n bytes -/
+theorem c15_buffered_data_is_handed_out_first (c : Conn) (l len fuel : Nat) (s : Stream) (h : getS c l = some s)
+    (hb : s.buf ≠ []) (hl : len ≤ s.buf.length) :
+    (readStream l len (fuel + 1) c).2 = .ok (if len = 0 then s.buf else s.buf.take len) := by
+  have hne : s.buf.isEmpty = false := by cases hbuf : s.buf <;> simp_all
+  simp only [readStream, h, hne, Bool.not_false, Bool.true_and, decide_eq_true_eq, hl, if_true]
+  split <;> rfl
+
+/-- … and what a `read(n)` leaves over stays buffered -/
+theorem c15_read_leaves_the_rest_buffered (c : Conn) (l len fuel : Nat) (s : Stream) (h : getS c l = some s)
+    (hb : s.buf ≠ []) (hl : len ≤ s.buf.length) (hpos : 0 < len) :
+    (readStream l len (fuel + 1) c).1 = putS c { s with buf := s.buf.drop len } := by
+  have hne : s.buf.isEmpty = false := by cases hbuf : s.buf <;> simp_all
+  have h0 : len ≠ 0 := by omega
+  simp [readStream, h, hne, hl, h0]
+
+theorem find_map_replace (xs : List Stream) (l : Nat) (t t' : Stream)
+    (ht : xs.find? (fun x => x.local_ == l) = some t) (ht' : t'.local_ = l) :
+    (xs.map (fun x => if x.local_ == t'.local_ then t' else x)).find? (fun x => x.local_ == l) = some t' := by
+  induction xs with
+  | nil => simp at ht
+  | cons x xs ih =>
+    simp only [List.map_cons, List.find?_cons] at ht ⊢
+    by_cases hx : x.local_ = l
+    · simp [hx, ht']
+    · have hx' : (x.local_ == l) = false := by simpa using hx
+      have hx2 : (x.local_ == t'.local_) = false := by simpa [ht'] using hx
+      rw [hx'] at ht
+      simp only [hx2, Bool.false_eq_true, if_false, hx']
+      exact ih ht
+
+/-- closing a stream locally does not touch its read buffer -/
+theorem c15_close_keeps_buffer (c : Conn) (l : Nat) (s : Stream) (h : getS c l = some s) :
+    ∃ s', getS (closeStream c l) l = some s' ∧ s'.buf = s.buf := by
+  have hl : s.local_ = l := by
+    have := List.find?_some h
+    simpa using this
+  have key : ∀ (c' : Conn) (t : Stream), getS c' l = some t → ∀ t' : Stream, t'.local_ = l →
+      getS (putS c' t') l = some t' := by
+    intro c' t ht t' ht'
+    exact find_map_replace c'.streams l t t' ht ht'
+  have ct : ∀ (c' : Conn), getS (closeTransport c' l) l = getS c' l := by
+    intro c'
+    unfold closeTransport
+    split
+    · simp only [getS]
+      split
+      · split <;> rfl
+      · rfl
+    · rfl
+  unfold closeStream
+  rw [h]
+  simp only
+  split
+  · exact ⟨s, h, rfl⟩
+  · refine ⟨{ s with state := .closed }, ?_, rfl⟩
+    rw [ct]
+    exact key c s h _ hl
+
 /-- non-vacuity: two keys, both rejected, public key offered once, then accepted -/
 example : connect 2 [.noise, .authToken 7, .authToken 8, .authToken 9, .noise, .cnxn 4096 true] =
     ([.cnxn, .signature 0 7, .signature 1 8, .publicKey 0], .connected 4096) := by
